@@ -43,6 +43,7 @@ var checks = map[string]entry{
 	// development entry: the composition behaviours alone, every clause reported (not registered in MANIFEST.json)
 	"DISK": {"model_checking", props.DiskAll},
 	"EXTPROBE": {"model_checking", props.ExtProbe},
+	"PTFOREIGN": {"model_checking", props.PtForeign},
 }
 
 func main() {
